@@ -447,6 +447,69 @@ pub mod kb4a4 {
     }
 }
 
+/// Arity-2 MMCS verified inside the KoalaBear quintic circuit with the base-field (D = 1) width-16
+/// permutation table (the compact layout): honest opening only, for the prove + verify arms.
+pub mod kb5q {
+    use p3_circuit::CircuitBuilder;
+    use p3_circuit::ops::{Poseidon2Config, generate_poseidon2_trace, generate_recompose_trace, perm_private_data};
+    use p3_commit::Mmcs;
+    use p3_field::PrimeCharacteristicRing;
+    use p3_matrix::Matrix;
+    use p3_matrix::dense::RowMajorMatrix;
+    use p3_recursion::pcs::verify_batch_circuit;
+    use p3_test_utils::koala_bear_quintic_params::*;
+    use p3_util::log2_ceil_usize;
+
+    use super::MmcsShape;
+
+    type CF = Challenge;
+    pub const CFG: Poseidon2Config = Poseidon2Config::KOALA_BEAR_D1_W16;
+
+    fn mats(shape: &MmcsShape) -> Vec<RowMajorMatrix<F>> {
+        let mut rng = crate::core::prng::Rng::new(shape.seed, "mmcs-mats", 0);
+        shape.dims.iter().map(|(h, w)| RowMajorMatrix::new((0..h * w).map(|_| F::from_u64(rng.below(<F as p3_field::PrimeField64>::ORDER_U64))).collect(), *w)).collect()
+    }
+
+    #[allow(clippy::type_complexity)]
+    pub fn build_and_run(shape: &MmcsShape, index: usize) -> Result<(p3_circuit::Circuit<CF>, p3_circuit::tables::Traces<CF>), String> {
+        let perm = default_koalabear_poseidon2_16();
+        let mmcs = MyMmcs::new(MyHash::new(perm.clone()), MyCompress::new(perm.clone()), shape.cap_height);
+        let ms = mats(shape);
+        let dimensions: Vec<_> = ms.iter().map(|m| m.dimensions()).collect();
+        let max_h = shape.dims.iter().map(|d| d.0).max().unwrap();
+        let log_max = log2_ceil_usize(max_h);
+        let (commit, pd) = mmcs.commit(ms);
+        let index = index % max_h;
+        let opening = mmcs.open_batch(index, &pd);
+        let roots: Vec<[F; DIGEST_ELEMS]> = commit.roots().to_vec();
+        let mut b = CircuitBuilder::<CF>::new();
+        b.enable_poseidon2_perm_base::<p3_circuit::ops::KoalaBearD1Width16, _>(generate_poseidon2_trace::<CF, p3_circuit::ops::KoalaBearD1Width16>, LiftKoalaPermForQuintic::new(perm.clone()));
+        b.enable_recompose::<F>(generate_recompose_trace::<F, CF>);
+        b.set_recompose_coeff_ctl_for_decompose_links(true);
+        let openings: Vec<Vec<_>> = opening.opened_values.iter().map(|o| (0..o.len()).map(|_| b.public_input()).collect()).collect();
+        let dirs = b.alloc_public_inputs(log_max, "directions");
+        let rate_ext = CFG.rate_ext();
+        let caps: Vec<Vec<_>> = (0..roots.len()).map(|_| b.alloc_public_inputs(rate_ext, "cap").to_vec()).collect();
+        let ops = verify_batch_circuit::<F, CF>(&mut b, CFG, &caps, &dimensions, &dirs, &openings, None).map_err(|e| format!("{e:?}"))?;
+        let circuit = b.build().map_err(|e| format!("{e:?}"))?;
+        let mut pubs: Vec<CF> = opening.opened_values.iter().flat_map(|v| v.iter().map(|x| CF::from(*x))).collect();
+        pubs.extend((0..log_max).map(|k| CF::from_bool((index >> k) & 1 == 1)));
+        for r in &roots {
+            pubs.extend(r.iter().map(|x| CF::from(*x)));
+        }
+        let traces = {
+            let mut r = circuit.runner();
+            r.set_public_inputs(&pubs).map_err(|e| format!("{e:?}"))?;
+            for (op, dg) in ops.iter().zip(opening.opening_proof.iter()) {
+                let sib: Vec<CF> = dg.iter().map(|x| CF::from(*x)).collect();
+                r.set_private_data(*op, perm_private_data(CFG, sib)).map_err(|e| format!("{e:?}"))?;
+            }
+            r.run().map_err(|e| format!("{e:?}"))?
+        };
+        Ok((circuit, traces))
+    }
+}
+
 fn run_case(shape: &MmcsShape, f: &MFault) -> Result<CaseOut, String> {
     match observe(|| match shape.universe.as_str() {
         "U-BB4" => bb4::run_case(shape, f),
